@@ -866,8 +866,9 @@ class FrameAnalysis(object):
             known = None
             if l.const == "none":
                 known = True
-            elif not l.nullable and (l.const is not None or l.fn is not None or l.fields is not None or l.kind is not None or l.items is not None):
-                known = False
+            elif not l.nullable and not l.selfs and not l.cont and (
+                    l.const is not None or (l.fn is not None and l.fn[0] != "method") or l.fields is not None or l.kind is not None or l.items is not None):
+                known = False       # (anything that is, or comes out of, an argument may be None)
             if known is not None:
                 return AV(const=known if isinstance(e.ops[0], ast.Is) else not known)
         return AV()
